@@ -763,6 +763,8 @@ struct GenCfg {
   bool seam_focus = false;    // C09: weight seams / non-manifold / degenerate / isolated
   int max_extra_atts = 4;
   bool allow_large = true;
+  bool allow_wide = true;   // quantization 25..30 bits / 32-bit integers beyond 2^24 (harnesses that re-combine
+                            // options and geometries after generation switch it off, see gen_case)
   bool allow_lattice = true;  // 3 % large regular lattice patches (very compressible streams)
 };
 
@@ -958,9 +960,11 @@ struct ValueGen {
   double offset, scale;  // float classes
   int fclass;
   int wide_bits = 20;
-  ValueGen(int dt, bool q, bool nrm, bool bulk_, bool thorough = false)
+  ValueGen(int dt, bool q, bool nrm, bool bulk_, bool thorough = false, bool allow_wide = true)
       : dtype(dt), quantized(q), normal(nrm), bulk(bulk_), sm(U64()) {
     if (thorough && P(4)) wide_bits = 25;
+    if (!open_finding("E1") && allow_wide) wide_bits = pick({20, 20, 25, 29, 29, 31});
+    if (getenv("VERIF_WIDE_BITS")) wide_bits = atoi(getenv("VERIF_WIDE_BITS"));
     iclass = W({45, 30, 25});
     fclass = W({40, 25, 20, 15});
     static const double offs[] = {0, 0, 0, 1e3, 1e7, -5e4, 0.5};
@@ -1061,7 +1065,11 @@ inline AttOpt gen_att_opt(const GenCfg &cfg, int type, bool force_q) {
     // 2^30), and quantized integers span the full 2^q range, so wide quantizations are made rare and capped at 26
     // bits here; 27..30 bits are reached through explicit boxes with the data near the origin (gen_explicit_box).
     const int qc = W({18, 47, 25, 8, 2});
-    o.qbits = qc == 0 ? R(1, 8) : qc == 1 ? R(9, 16) : qc == 2 ? R(17, 21) : qc == 3 ? R(22, 24) : (cfg.thorough ? R(25, 26) : R(22, 24));
+    // With finding E1 fixed the estimate is skipped for values above 18 bits, so 25..30 bits are generated in both
+    // tiers (gen_case keeps such cases away from the constrained multi-parallelogram scheme, whose entropy tracker
+    // still allocates O(largest correction)).
+    const int hi = open_finding("E1") ? (cfg.thorough ? R(25, 26) : R(22, 24)) : cfg.allow_wide ? R(25, 30) : R(22, 24);
+    o.qbits = qc == 0 ? R(1, 8) : qc == 1 ? R(9, 16) : qc == 2 ? R(17, 21) : qc == 3 ? R(22, 24) : hi;
   }
   if (P(30)) {
     static const int kPreds[] = {-2, 0, 1, 4, 5, 6, 2, 3, 7, -1};
@@ -1387,7 +1395,7 @@ inline CaseSpec gen_case(const GenCfg &cfg, std::vector<std::string> *classes) {
 
   // -------- options (needed before values: quantized attributes draw finite values)
   o.per_type.resize(5);
-  bool any_q = false;
+  bool any_q = false, any_wide = false, any_full = false;
   for (int t = 0; t < 5; ++t) o.per_type[t] = gen_att_opt(cfg, t, false);
   o.per_att.resize(na);
   for (int ai = 0; ai < na; ++ai) o.per_att[ai] = gen_att_opt(cfg, plan[ai].type, false);
@@ -1449,7 +1457,7 @@ inline CaseSpec gen_case(const GenCfg &cfg, std::vector<std::string> *classes) {
     const bool quantized = a.dtype == draco::DT_FLOAT32 && ao.qbits > 0;
     any_q |= quantized;
     const bool bulk = static_cast<uint64_t>(a.nvalues) * a.ncomp > 400;
-    ValueGen vgx(a.dtype, quantized, a.type == GeometryAttribute::NORMAL && a.dtype == draco::DT_FLOAT32 && a.ncomp == 3, bulk, cfg.thorough);
+    ValueGen vgx(a.dtype, quantized, a.type == GeometryAttribute::NORMAL && a.dtype == draco::DT_FLOAT32 && a.ncomp == 3, bulk, cfg.thorough, cfg.allow_wide);
     a.data.reserve(static_cast<size_t>(a.nvalues) * a.stride());
     const int dup_pct = W({50, 30, 20}) == 0 ? 0 : R(5, 60);  // share of values copied from an earlier value
     for (uint32_t v = 0; v < a.nvalues; ++v) {
@@ -1487,7 +1495,12 @@ inline CaseSpec gen_case(const GenCfg &cfg, std::vector<std::string> *classes) {
       a.map.clear();
       classes->push_back("att_expanded_to_identity_mapping");
     }
-    if ((a.dtype == draco::DT_INT32 || a.dtype == draco::DT_UINT32) && vgx.iclass == 2) count("int32_values_limited_by_cost_cap (2^21 quick, 2^26 thorough; E1/E2 beyond 2^30)");
+    if ((a.dtype == draco::DT_INT32 || a.dtype == draco::DT_UINT32) && vgx.iclass == 2) {
+      count("int32_values_limited_to_2^" + std::to_string(vgx.wide_bits) + " (cost; E2 beyond 2^30)");
+      if (vgx.wide_bits > 24) any_wide = true;
+      if (vgx.wide_bits > 29) any_full = true;
+    }
+    if (quantized && ao.qbits > 24) any_wide = true;
   }
   // explicit quantization boxes
   for (int ai = 0; ai < na; ++ai) {
@@ -1510,6 +1523,42 @@ inline CaseSpec gen_case(const GenCfg &cfg, std::vector<std::string> *classes) {
   if (P(70)) {
     o.enc_speed = R(0, 10);
     o.dec_speed = P(60) ? o.enc_speed : R(0, 10);
+  }
+  if (any_full) {
+    // 32-bit integers over their full range: the mesh predictors (parallelogram family, tex-coord, geometric normal)
+    // do 32/64-bit signed arithmetic on coordinates that overflows beyond ~2^30 (undefined behaviour in encoder and
+    // decoder alike, outside the listed properties), so full-range cases are coded without prediction or with the
+    // difference scheme (and by the kd-tree coder).
+    for (size_t i = 0; i < o.per_att.size(); ++i)   // PREDICTION_NONE / PREDICTION_DIFFERENCE (NORMAL: see below)
+      o.per_att[i].pred = (g.atts[i].type == GeometryAttribute::NORMAL || P(50)) ? 0 : -2;
+    for (size_t t = 0; t < o.per_type.size(); ++t) o.per_type[t].pred = (t == GeometryAttribute::NORMAL || P(50)) ? 0 : -2;
+    classes->push_back("int32_full_range_values");
+  }
+  if (any_wide) {
+    // Values above 2^24 (quantization with 25..30 bits, wide 32-bit integers) are kept on the prediction schemes
+    // none / difference / parallelogram / multi-parallelogram:
+    //  - MeshPredictionSchemeConstrainedMultiParallelogramEncoder sums absolute residuals and up to four predictions
+    //    in int32 (encoder-side choice metric: undefined behaviour beyond 2^29 that UBSan reports although both sides
+    //    compute the same wrapped values); its entropy tracker also allocated O(largest correction) counters until
+    //    finding F29 was fixed;
+    //  - the tex-coord and geometric-normal predictors square coordinate differences in int64, which overflows
+    //    for such magnitudes (they refuse some of those inputs, and the encoder-only orientation choice is
+    //    undefined behaviour that UBSan would report although it cannot change the decoded values).
+    // Unset predictions would select those schemes by default (speed < 4), so they are set explicitly; counted.
+    bool changed = false;
+    // (Set*PredictionScheme refuses the deprecated scheme 2 and, for NORMAL attributes, everything but the
+    // difference and geometric-normal schemes; a refused call leaves the automatic choice in place)
+    auto fix = [&](AttOpt &ao, int type) {
+      const bool ok = type == GeometryAttribute::NORMAL ? ao.pred == 0 : (ao.pred == -2 || ao.pred == 0 || ao.pred == 1);
+      if (!ok) {
+        ao.pred = type == GeometryAttribute::NORMAL ? 0 : pick({-2, 0, 1});
+        changed = true;
+      }
+    };
+    for (size_t i = 0; i < o.per_att.size(); ++i) fix(o.per_att[i], g.atts[i].type);
+    for (size_t t = 0; t < o.per_type.size(); ++t) fix(o.per_type[t], static_cast<int>(t));
+    if (changed) count("wide_values_kept_on_basic_prediction_schemes (cost / int64 overflow in predictors)");
+    classes->push_back("wide_values_over_2^24");
   }
   o.builtin_compression = W({80, 10, 10}) - 1;
   o.split_on_seams = W({70, 15, 15}) - 1;
